@@ -2,6 +2,7 @@
 //! have a module of their own.
 
 pub mod quire;
+pub mod rngmon;
 
 use crate::ops::Registry;
 use crate::rt::{Ctx, Report};
@@ -28,6 +29,8 @@ fn budget(prop: &str, quick: bool) -> (f64, u64) {
         ("C09", false) => (32.0, 1 << 28),
         ("C10", true) => (24.0, 1 << 22),
         ("C10", false) => (32.0, 1 << 27),
+        ("C17", true) => (16.0, 1 << 22),
+        ("C17", false) => (24.0, 1 << 27),
         (_, true) => (16.0, 1 << 20),
         (_, false) => (24.0, 1 << 24),
     }
@@ -35,12 +38,13 @@ fn budget(prop: &str, quick: bool) -> (f64, u64) {
 
 pub fn run(ctx: &Ctx, reg: &Registry, rep: &mut Report) {
     match ctx.prop.as_str() {
-        "C01" | "C02" | "C03" | "C05" | "C06" | "C07" | "C08" | "C09" | "C10" => {
+        "C01" | "C02" | "C03" | "C05" | "C06" | "C07" | "C08" | "C09" | "C10" | "C17" => {
             let (exh, samples) = budget(&ctx.prop, ctx.quick());
             let plans = sweep::plan_for(reg, &ctx.prop, exh, samples);
             run_plans(ctx, reg, plans, rep);
         }
         "C04" => quire::run_c04(ctx, rep),
+        "C19" => rngmon::run(ctx, reg, rep),
         "C12" => {
             let (exh, samples) = if ctx.quick() { (16.0, 1 << 24) } else { (32.0, 1 << 28) };
             let plans = sweep::plan_for(reg, "C12", exh, samples);
